@@ -11,31 +11,38 @@ each statement kind its meaning over an abstract file system and an abstract obj
 * `serialize`  – `self.serialize(parser)`: runs every nested section writer, each of which validates its own object,
                  so it may raise at ANY nested validator; needs the parser variable;
 * `openW`      – `with open_file_obj(f, "w") as f`: creates / TRUNCATES the destination at once;
-* `buildFile`  – `self.build_file(parser, f)`: writes the text of the parser; it can itself fail half-way
-                 (`json.dump` meets a value it cannot encode) – whatever was written before stays in the file;
+* `buildFile`  – `self.build_file(parser, f)` on the OPENED DESTINATION: writes the text of the parser; it can itself
+                 fail half-way (`json.dump` meets a value it cannot encode) – whatever was written before stays
+                 in the file (the shape before the F19 fix);
+* `newBuf`     – `content = six.StringIO()`: a fresh memory buffer;
+* `buildMem`   – `self.build_file(parser, content)`: the same encoder, into the memory buffer: may fail, touches no file;
+* `writeBuf`   – `f.write(content.getvalue())`: writes the already built text to the opened destination;
 * `unknown`    – any statement outside the idiom: may raise (assumed not to touch the file system).
 -/
 namespace PM
 
 inductive Eff where
-  | validate | openW | getParser | serialize | buildFile | unknown
+  | validate | openW | getParser | serialize | buildFile | newBuf | buildMem | writeBuf | unknown
 deriving DecidableEq, Repr, Inhabited
 
 namespace Eff
 
 def name : Eff → String
   | validate => "validate" | openW => "openW" | getParser => "getParser"
-  | serialize => "serialize" | buildFile => "buildFile" | unknown => "unknown"
+  | serialize => "serialize" | buildFile => "buildFile" | newBuf => "newBuf" | buildMem => "buildMem"
+  | writeBuf => "writeBuf" | unknown => "unknown"
 
 def ofName : String → Eff
   | "validate" => validate | "openW" => openW | "getParser" => getParser
-  | "serialize" => serialize | "buildFile" => buildFile | _ => unknown
+  | "serialize" => serialize | "buildFile" => buildFile | "newBuf" => newBuf | "buildMem" => buildMem
+  | "writeBuf" => writeBuf | _ => unknown
 
-/-- statements whose failure means "the object (or the code around it) refused": everything that runs python code of
-the object.  `openW` (I/O error: nothing is created then) and `buildFile` (encoder failure) are separate. -/
+/-- statements that run code of the object and can therefore refuse it: validators, section writers, the encoder
+(`build_file`, wherever it writes to), anything unrecognised.  `openW` (I/O error: nothing is created then), `newBuf`
+and `writeBuf` (a plain write of a string that already exists) are not. -/
 def fallible : Eff → Bool
-  | validate | getParser | serialize | unknown => true
-  | openW | buildFile => false
+  | validate | getParser | serialize | unknown | buildMem | buildFile => true
+  | openW | newBuf | writeBuf => false
 
 end Eff
 
@@ -71,6 +78,8 @@ structure DumpSt where
   parser : Option Content := none
   /-- the destination has been opened for writing -/
   opened : Bool := false
+  /-- the local memory buffer `content`: unbound, or what has been written into it -/
+  buffer : Option Content := none
 
 def liftErr (eff : Eff) : Except Err α → Except Failure α
   | .ok a => .ok a
@@ -105,6 +114,20 @@ def step (o : DumpObj) (path : Path) (st : DumpSt) : Eff → DumpSt × Except Fa
         | none => ({ st with fs := st.fs.write path (cur ++ t) }, .ok ())
         | some (n, e) => ({ st with fs := st.fs.write path (cur ++ t.take n) }, .error (.buildFile, e))
       else (st, .error (.buildFile, .attributeError))            -- `f` is still the path string: no `.write`
+  | .newBuf => ({ st with buffer := some [] }, .ok ())
+  | .buildMem =>
+    match st.parser, st.buffer with
+    | some t, some b =>
+      match o.buildFail with
+      | none => ({ st with buffer := some (b ++ t) }, .ok ())
+      | some (n, e) => ({ st with buffer := some (b ++ t.take n) }, .error (.buildMem, e))
+    | _, _ => (st, .error (.buildMem, .other))                   -- UnboundLocalError
+  | .writeBuf =>
+    match st.buffer with
+    | none => (st, .error (.writeBuf, .other))                   -- UnboundLocalError: content
+    | some b =>
+      if st.opened then ({ st with fs := st.fs.write path ((st.fs path).getD [] ++ b) }, .ok ())
+      else (st, .error (.writeBuf, .attributeError))             -- `f` is still the path string
 
 structure Outcome where
   st : DumpSt
@@ -136,11 +159,12 @@ def noFallibleAfterOpen : List Eff → Bool
 
 /-! ### the standard shape of a dump
 
-`validate`* `getParser` `validate`* `serialize` `validate`* `openW` `buildFile` – the shape both `dump` methods have
-(with `validate` calls allowed anywhere before the open).  Decidable; used to state, for every script of this shape at
-once, that a refusing validator makes the dump fail before the open and that a successful dump writes the text. -/
+`validate`* `getParser` `validate`* `serialize` `validate`* `newBuf` `buildMem` `openW` `writeBuf` – the shape both
+`dump` methods have since the F19 fix (with `validate` calls allowed anywhere before the buffer is created).
+Decidable; used to state, for every script of this shape at once, that ANY refusal – validator, section writer or
+encoder – happens before the open and that a successful dump writes the text. -/
 inductive Phase where
-  | init | parsed | serialized | opened | done
+  | init | parsed | serialized | buffered | built | opened | done
 deriving DecidableEq, Repr
 
 def phaseStep : Phase → Eff → Option Phase
@@ -149,8 +173,10 @@ def phaseStep : Phase → Eff → Option Phase
   | .parsed, .validate => some .parsed
   | .parsed, .serialize => some .serialized
   | .serialized, .validate => some .serialized
-  | .serialized, .openW => some .opened
-  | .opened, .buildFile => some .done
+  | .serialized, .newBuf => some .buffered
+  | .buffered, .buildMem => some .built
+  | .built, .openW => some .opened
+  | .opened, .writeBuf => some .done
   | _, _ => none
 
 def phases : Phase → List Eff → Option Phase
@@ -166,8 +192,13 @@ def stateAt (fs : FS) (path : Path) (t0 t : Content) : Phase → DumpSt
   | .init => { fs := fs }
   | .parsed => { fs := fs, parser := some t0 }
   | .serialized => { fs := fs, parser := some t }
-  | .opened => { fs := fs.write path [], parser := some t, opened := true }
-  | .done => { fs := fs.write path t, parser := some t, opened := true }
+  | .buffered => { fs := fs, parser := some t, buffer := some [] }
+  | .built => { fs := fs, parser := some t, buffer := some t }
+  | .opened => { fs := fs.write path [], parser := some t, opened := true, buffer := some t }
+  | .done => { fs := fs.write path t, parser := some t, opened := true, buffer := some t }
+
+/-- the shape before the F19 fix: the encoder runs on the opened destination -/
+def preF19Shape : List Eff := [.validate, .getParser, .serialize, .openW, .buildFile]
 
 /-! ### nested sections: where `serialize` can fail
 
